@@ -1,6 +1,8 @@
 package props
 
 import (
+	"bufio"
+	"bytes"
 	"encoding/hex"
 	"errors"
 	"fmt"
@@ -266,3 +268,38 @@ func min(a, b int) int {
 
 var _ = errors.Is
 var _ = io.EOF
+
+// wrapKinds are the concrete reader types a stream is offered through: code
+// that type-asserts its reader (io.ByteReader, *bufio.Reader, *bytes.Buffer)
+// takes other paths for them.
+var wrapKinds = []string{"script", "script", "bytes.Reader", "bytes.Buffer", "bufio16", "bufio4096"}
+
+// wrappedStream offers sr (or its data) through a reader of the given kind
+// and reports how many bytes of the stream the consumer has taken so far.
+func wrappedStream(kind string, sr *guard.ScriptReader) (io.Reader, func() int) {
+	switch kind {
+	case "bytes.Reader":
+		r := bytes.NewReader(sr.Data)
+		return r, func() int { return len(sr.Data) - r.Len() }
+	case "bytes.Buffer":
+		r := bytes.NewBuffer(append([]byte(nil), sr.Data...))
+		return r, func() int { return len(sr.Data) - r.Len() }
+	case "bufio16":
+		r := bufio.NewReaderSize(sr, 16)
+		return r, func() int { return sr.Consumed() - r.Buffered() }
+	case "bufio4096":
+		r := bufio.NewReaderSize(sr, 4096)
+		return r, func() int { return sr.Consumed() - r.Buffered() }
+	}
+	return sr, sr.Consumed
+}
+
+// readFrom reads one packet from any reader under the guard.
+func readFrom(r io.Reader, size int, c func() interface{}) readResult {
+	var p mq.ControlPacket
+	var err error
+	pan := guard.Watched(size, func() []byte { return mustJSON(c()) }, func() {
+		p, err = mq.ReadPacket(r)
+	})
+	return resultOf(p, err, pan)
+}
